@@ -7,6 +7,7 @@
 import Mappy.Model.Transformer
 import Mappy.Lemmas.Assoc
 import Mappy.Props.C02
+import Mappy.Model.Retype
 
 namespace Mappy.Transformer
 
@@ -78,3 +79,36 @@ theorem C05_kv_case (a a' b : Tok) (ka ka' vb : Str) (ha : a.val = .str ka) (ha'
   simp [pairKV, tokOf, strVal, ha, ha', hb, h, bind, Except.bind, pure, Except.pure]
 
 end Mappy.Transformer
+
+namespace Mappy.Retype
+
+/-- **C05_retype_case_blind** — the token re-typing hook of `Parser.parse` (the one place where mappyfile itself looks at
+token text before the tree exists) gives the same token type however the previous keyword and the word itself are
+spelled: for every re-spelling `φ`, `ψ` that keeps the upper-cased text. (True since the fix that upper-cases the previous
+token; before it, `symbol circle` was re-typed and `SYMBOL circle` was not.) -/
+theorem C05_retype_case_blind (attrs : List Str) (φ ψ : Str → Str) (hφ : ∀ s, upper (φ s) = upper s) (hψ : ∀ s, upper (ψ s) = upper s)
+    (prev : Option Str) (ty text : Str) :
+    retypeWith attrs (prev.map φ) ty (ψ text) = retypeWith attrs prev ty text := by
+  unfold retypeWith
+  have : (prev.map φ).map upper = prev.map upper := by cases prev <;> simp [hφ]
+  simp only [this, hψ]
+
+/-- lower-casing a word is such a re-spelling -/
+theorem upper_lower (s : Str) : upper (lower s) = upper s := by
+  simp only [lower, upper, List.map_map]
+  congr 1
+  funext c
+  simp only [Function.comp]
+  unfold upperC lowerC
+  split
+  · rename_i h
+    rw [ofNat_toNat (c.toNat + 32) (by omega)]
+    have : 97 ≤ c.toNat + 32 ∧ c.toNat + 32 ≤ 122 := by omega
+    rw [if_pos this, if_neg (by omega)]
+    have : c.toNat + 32 - 32 = c.toNat := by omega
+    rw [this]
+    exact (Char.ofNat_toNat c)
+  · rfl
+
+end Mappy.Retype
+
